@@ -169,6 +169,11 @@ func (n *Net) Serve(from string, req *http.Request) (*Exchange, error) {
 	return ex, nil
 }
 
+// ExHolder lets a caller learn which exchange its own request became (also under concurrency).
+type ExHolder struct{ Ex *Exchange }
+
+type exHolderKey struct{}
+
 type transport struct {
 	n    *Net
 	from string
@@ -176,6 +181,9 @@ type transport struct {
 
 func (t *transport) RoundTrip(req *http.Request) (*http.Response, error) {
 	ex, err := t.n.Serve(t.from, req)
+	if h, ok := req.Context().Value(exHolderKey{}).(*ExHolder); ok {
+		h.Ex = ex
+	}
 	if err != nil {
 		return nil, err
 	}
